@@ -265,8 +265,8 @@ def utf32_instances(tier):
     out = []
     # conversion of text that may contain CR LF runs unicode-segmentation's GraphemeCursor symbolically
     # (binary searches in its category tables): > 13 min already for 2 bytes, so it is thorough-only
-    names = [("views_ascii_l3", 3), ("views_unicode_l3", 3), ("views_unicode_l4", 4)] if tier == "quick" else \
-            [("convert_ascii_l2", 2), ("convert_ascii_l3", 3), ("convert_ascii_l4", 4), ("views_ascii_l3", 3), ("views_unicode_l3", 3), ("views_unicode_l4", 4)]
+    names = [("decision_l4", 4), ("decision_l6", 6), ("views_ascii_l3", 3), ("views_unicode_l3", 3), ("views_unicode_l4", 4)] if tier == "quick" else \
+            [("decision_l4", 4), ("decision_l6", 6), ("convert_crlf_tail_l0", 2), ("convert_crlf_tail_l1", 3), ("convert_crlf_tail_l2", 4), ("convert_ascii_l2", 2), ("convert_ascii_l3", 3), ("convert_ascii_l4", 4), ("views_ascii_l3", 3), ("views_unicode_l3", 3), ("views_unicode_l4", 4)]
     for n, l in names:
         # slice equality on [char] is a byte-wise memcmp: 4 * L + 1 iterations
         out.append(Inst(n, 4 * l + 3, None, ["C17"], {"L": l, "content": "symbolic ASCII bytes (all CR/LF arrangements)" if "ascii" in n else "symbolic scalars", "ranges": "symbolic valid ranges"}, None))
